@@ -1984,7 +1984,7 @@ def build_infra(p, seed):
 # ===========================================================================
 
 def _gen_ttl_server(rng):
-    return {"clock": rng.choice(["sim", "default"]), "rate": rng.choice([150.0, 300.0]), "customers": rng.choice([20, 60]),
+    return {"clock": rng.choice(["sim", "sim", "sim", "default"]), "rate": rng.choice([150.0, 300.0]), "customers": rng.choice([20, 60]),
             "cap": rng.choice([8, 30]), "horizon": 2.0}
 
 
@@ -2233,8 +2233,8 @@ def build_dying_run(p, seed):
 
 
 def _gen_prepared(rng):
-    return {"scheduled": rng.randint(1, 3), "prepared": rng.randint(1, 4), "runtime": rng.randint(1, 4), "before_sim": rng.random() < 0.5,
-            "sources": rng.choice([0, 1, 2]), "rounds": rng.choice([1, 3])}
+    return {"scheduled": rng.randint(1, 3), "prepared": rng.randint(2, 4), "runtime": rng.randint(2, 5), "before_sim": rng.random() < 0.3,
+            "sources": rng.choice([0, 0, 0, 1]), "rounds": rng.choice([1, 1, 1, 2])}
 
 
 @model("prepared_events", "engine", _gen_prepared)
